@@ -103,6 +103,37 @@ def _run_impl_tlc(fam, watch, work, bundle_path, name, workers=1):
     return res, parse_violations(res["out"])
 
 
+def _add_regressions(prop, fam, binp, work, tier, seed, env, bpath, stats):
+    """Histories that once exposed a defect (regress/<prop>/<harness package>/*.json, replay-file format) are run again
+    on the real code in every run and judged with everything else: their chains are appended to the bundle."""
+    import glob
+    d = os.path.join(VERIF, "regress", prop, fam["pkg"].strip("./"))
+    cases = []
+    for f in sorted(glob.glob(os.path.join(d, "*.json"))):
+        for c in json.load(open(f)).get("cases", []):
+            c = dict(c, id="reg-%s-%s" % (os.path.basename(f)[:-5], c.get("id", "0")))
+            cases.append(c)
+    if not cases:
+        return 0
+    rfile = os.path.join(work, "regress_cases.json")
+    json.dump(dict(property=prop, cases=cases), open(rfile, "w"))
+    rout = os.path.join(work, "regress")
+    renv = dict(env)
+    renv["VERIF_REPLAY"] = rfile
+    run_explorer(binp, fam["test"], rout, tier, seed, renv, timeout=1200)
+    rb = json.load(open(os.path.join(rout, "bundle.json")))
+    rst = json.load(open(os.path.join(rout, "stats.json")))
+    b = json.load(open(bpath))
+    b["systems"].extend(rb["systems"])
+    json.dump(b, open(bpath, "w"))
+    stats["chains"] = stats.get("chains", 0) + len(rb["systems"])
+    stats["regression_chains"] = len(rb["systems"])
+    if rst.get("panics"):
+        stats["panics"] = (stats.get("panics") or []) + rst["panics"]
+    log("%d regression histories replayed" % len(rb["systems"]))
+    return len(rb["systems"])
+
+
 def _table_check(prop, fam, tier, seed, replay, work, known, t0):
     watch = fam["watch"]
     binp = build_harness(fam["pkg"], work)
@@ -127,6 +158,9 @@ def _table_check(prop, fam, tier, seed, replay, work, known, t0):
     run_explorer(binp, fam["test"], outdir, tier, seed, env, timeout=fam.get("explore_timeout", 3000))
     bpath = os.path.join(outdir, "bundle.json")
     stats = json.load(open(os.path.join(outdir, "stats.json")))
+    nreg = 0
+    if not replay:
+        nreg = _add_regressions(prop, fam, binp, work, tier, seed, env, bpath, stats)
     bundle = Bundle(bpath)
     res, viols = _run_impl_tlc(fam, watch, work, bpath, "impl", workers=fam.get("impl_workers", 1))
     log("impl TLC: %d distinct states, %d violating states" % (res["distinct"], len(viols)))
